@@ -19,8 +19,11 @@ pub struct Exec {
     last_alloc_ok: bool,
     last_log_area: usize,
     last_intern_ptr: usize,
+    /// api-level ids handed out on this thread, by number (the newtype is opaque)
+    api_ids: std::collections::HashMap<usize, api::InternedStringId>,
     /// live allocations made through `palloc`: (address, length, pattern salt)
     allocs: Vec<(usize, usize, u8)>,
+    zero_size_answer: Option<usize>,
     last_intern_len: usize,
     last_alloc_len: usize,
 }
@@ -79,6 +82,8 @@ impl Exec {
             last_log_area: 0,
             last_intern_ptr: 0,
             allocs: Vec::new(),
+            zero_size_answer: None,
+            api_ids: std::collections::HashMap::new(),
             last_intern_len: 0,
             last_alloc_len: 0,
         }
@@ -194,6 +199,27 @@ impl Exec {
                 self.last_alloc_ok = false;
                 self.last_log_area = 0;
                 Some("ok".to_string())
+            }
+            "ainit" => {
+                // api level: Context::new_with_input(json) — the document is handed over as JSON and must
+                // arrive in the provider as the bytes given here (the generator only sends documents that
+                // are their own canonical encoding)
+                let bytes = unhex(t.get(1)?)?;
+                let doc = mp::decode_all(&bytes)?;
+                let json = doc_to_json(&doc)?;
+                let _ = api::Context::new_with_input(json);
+                self.handles.clear();
+                self.ptr_to_handle.clear();
+                self.last_alloc = 0;
+                self.last_alloc_ok = false;
+                self.last_log_area = 0;
+                let (base, ilen) = prov::verif::input_base();
+                let got = unsafe { std::slice::from_raw_parts(base as *const u8, ilen) };
+                if got == &bytes[..] {
+                    Some("ok".to_string())
+                } else {
+                    Some(format!("INPUT-DIFFERS the provider holds {}", show_bytes(got)))
+                }
             }
             "root" => {
                 let v = prov::read::shopify_function_input_get();
@@ -343,10 +369,14 @@ impl Exec {
                 let n: usize = t.get(1)?.parse().ok()?;
                 let p = unsafe { sf_alloc(n) } as usize;
                 if n == 0 {
-                    return Some(if p == 1 { "sentinel".to_string() } else { format!("zero-size request answered with {}", if p == 0 { "null" } else { "a pointer that is not the sentinel" }) });
+                    // nothing may be written through it; any non-null answer will do (the code uses address 1)
+                    if p != 0 {
+                        self.zero_size_answer = Some(p);
+                    }
+                    return Some(if p != 0 { "sentinel".to_string() } else { "zero-size request answered with null".to_string() });
                 }
-                if p == 0 || p == 1 {
-                    return Some(format!("BAD request of {} bytes answered with {}", n, if p == 0 { "null" } else { "the zero-size sentinel" }));
+                if p == 0 || p < 4096 || Some(p) == self.zero_size_answer {
+                    return Some(format!("BAD request of {} bytes answered with {}", n, if p == 0 { "null" } else { "the zero-size sentinel / a reserved low address" }));
                 }
                 let (ibase, ilen) = prov::verif::input_base();
                 if p < ibase + ilen && ibase < p + n {
@@ -461,12 +491,35 @@ impl Exec {
                 ))
             }
             // ---- interning
-            "intern" => {
+            "intern" | "vintern" => {
                 let b = unhex(t.get(1)?)?;
                 let s = unsafe { std::str::from_utf8_unchecked(&b) };
-                let c = api::Context;
-                let id = c.intern_utf8_str(s);
+                let id = if t[0] == "vintern" {
+                    // the convenience method on a value
+                    api::Value::verif_from_bits(NanBox::null().to_bits()).intern_utf8_str(s)
+                } else {
+                    api::Context.intern_utf8_str(s)
+                };
+                self.api_ids.insert(id_num(id), id);
                 Some(format!("id {}", id_num(id)))
+            }
+            "aroot" => {
+                // api level: Context::input_get
+                match api::Context.input_get() {
+                    Ok(v) => Some(self.fmtval(v.verif_to_bits())),
+                    Err(_) => Some("context-error".to_string()),
+                }
+            }
+            "aiprop" => {
+                // api level: Value::get_interned_obj_prop with an id the api crate handed out on this thread
+                // (any other number goes through the provider entry point, as `iprop` does)
+                let s = self.scope(t.get(1)?)?;
+                let id: usize = t.get(2)?.parse().ok()?;
+                let v = match self.api_ids.get(&id) {
+                    Some(aid) => api::Value::verif_from_bits(s).get_interned_obj_prop(*aid).verif_to_bits(),
+                    None => prov::read::shopify_function_input_get_interned_obj_prop(s, id),
+                };
+                Some(self.fmtval(v))
             }
             "internreq" => {
                 let n: usize = t.get(1)?.parse().ok()?;
@@ -687,8 +740,10 @@ impl Exec {
             }
             "istr" => {
                 let id: usize = t.get(2)?.parse().ok()?;
-                (prov::write::shopify_function_output_new_interned_utf8_str(id) as usize)
-                    .to_string()
+                match (apilevel, self.api_ids.get(&id)) {
+                    (true, Some(aid)) => wr(c.write_interned_utf8_str(*aid)),
+                    _ => (prov::write::shopify_function_output_new_interned_utf8_str(id) as usize).to_string(),
+                }
             }
             "obj" => {
                 let n: usize = t.get(2)?.parse().ok()?;
@@ -705,6 +760,37 @@ impl Exec {
             _ => return None,
         })
     }
+}
+
+fn doc_to_json(d: &mp::Doc) -> Option<serde_json::Value> {
+    use serde_json::Value as J;
+    Some(match d {
+        mp::Doc::Nil => J::Null,
+        mp::Doc::Bool(b) => J::Bool(*b),
+        mp::Doc::Int(i) => {
+            if *i >= 0 {
+                J::Number(serde_json::Number::from(u64::try_from(*i).ok()?))
+            } else {
+                J::Number(serde_json::Number::from(i64::try_from(*i).ok()?))
+            }
+        }
+        mp::Doc::F32(_) => return None,
+        mp::Doc::F64(b) => J::Number(serde_json::Number::from_f64(f64::from_bits(*b))?),
+        mp::Doc::Str(s) => J::String(String::from_utf8(s.clone()).ok()?),
+        mp::Doc::Arr(a) => J::Array(a.iter().map(doc_to_json).collect::<Option<Vec<_>>>()?),
+        mp::Doc::Map(m) => {
+            let mut o = serde_json::Map::new();
+            for (k, v) in m {
+                match k {
+                    mp::Doc::Str(s) => {
+                        o.insert(String::from_utf8(s.clone()).ok()?, doc_to_json(v)?);
+                    }
+                    _ => return None,
+                }
+            }
+            J::Object(o)
+        }
+    })
 }
 
 pub fn id_num(id: api::InternedStringId) -> usize {
